@@ -320,12 +320,12 @@ where
     run.stats.exhaustive_subspaces.push(json!({"name": "length / integer limit family", "strings": lim.len()}));
 
     // (d) random spelled versions with edits, token soup
-    let out = campaign(cfg, id, "random-text", cfg.pick(300_000, 6_000_000), random_text, &check);
+    let out = campaign(cfg, id, "random-text", cfg.pick(1_000_000, 10_000_000), random_text, &check);
     run.absorb(out);
     let out = campaign(cfg, id, "token-soup", cfg.pick(100_000, 2_000_000), || gs::soup(12), &check);
     run.absorb(out);
     // (e) history independence: parse a sibling spelling first, then judge the text as usual
-    let out = campaign(cfg, id, "primed-text", cfg.pick(300_000, 6_000_000), primed_text, |c: &(String, String), st: &mut Stats| {
+    let out = campaign(cfg, id, "primed-text", cfg.pick(1_000_000, 10_000_000), primed_text, |c: &(String, String), st: &mut Stats| {
         let _ = guard(|| Version::parse(&c.0).is_ok());
         let _ = guard(|| nodejs_semver::Range::parse(&c.0).is_ok());
         st.class("primed-with-sibling-spelling");
